@@ -197,9 +197,26 @@ def r16a(model: Model, rr: RuleResult):
                 for a, (tr, sc) in zip(c.args, (("E", "A"), ("F", "D"))):
                     defs = cfg.reaching(at, a.id)
                     good = bool(defs)
+                    def is_div(v):
+                        return isinstance(v, ast.BinOp) and isinstance(v.op, ast.Div) and var_is(v.left, tr) and isinstance(v.right, ast.BinOp) \
+                            and isinstance(v.right.op, ast.Sub) and norm(v.right.left) == "1" and var_is(v.right.right, sc)
+
+                    def nonunit_test(t, want_true=True):
+                        # `s != 1` (or its mirror / negated `s == 1`)
+                        if isinstance(t, ast.Compare) and len(t.ops) == 1 and {comp.get(n) for n in names_in(t)} == {sc} and "1" in norm(t):
+                            return isinstance(t.ops[0], ast.NotEq) if want_true else isinstance(t.ops[0], ast.Eq)
+                        return False
                     for d in defs:
                         v = d.value
                         if isinstance(v, ast.Constant) and v.value == 0:
+                            continue
+                        if isinstance(v, ast.IfExp):
+                            # cx = d / (1 - s) if s != 1 else 0   (or the mirrored spelling)
+                            if nonunit_test(v.test, True) and is_div(v.body) and isinstance(v.orelse, ast.Constant) and v.orelse.value == 0:
+                                continue
+                            if nonunit_test(v.test, False) and is_div(v.orelse) and isinstance(v.body, ast.Constant) and v.body.value == 0:
+                                continue
+                            good = False
                             continue
                         if isinstance(v, ast.BinOp) and isinstance(v.op, ast.Div) and var_is(v.left, tr) and isinstance(v.right, ast.BinOp) \
                                 and isinstance(v.right.op, ast.Sub) and norm(v.right.left) == "1" and var_is(v.right.right, sc):
